@@ -64,12 +64,12 @@ type Entry struct {
 	Limit      int    // receiver-side size limit the generator keeps values under (0 = none)
 	Notes      string // normalisations / non-transmitted fields specific to this entry
 
-	New       func() any                                 // pointer to a zero value
-	Encode    func(v any) []byte                         // v is the pointer returned by New/Gen/Decode
-	Decode    func(b []byte) (any, error)                // error = d.Err()
+	New       func() any                                      // pointer to a zero value
+	Encode    func(v any) []byte                              // v is the pointer returned by New/Gen/Decode
+	Decode    func(b []byte) (any, error)                     // error = d.Err()
 	DecodeN   func(b []byte) (v any, consumed int, err error) // also reports how many bytes the decoder consumed
-	Gen       func(rng *rand.Rand, o *valgen.Opts) any   // a generated in-domain value (pointer)
-	Normalise func(v any)                                // all documented lossy normalisations, in place
+	Gen       func(rng *rand.Rand, o *valgen.Opts) any        // a generated in-domain value (pointer)
+	Normalise func(v any)                                     // all documented lossy normalisations, in place
 	// MultiproofTxns returns the transaction sets that are encoded in multiproof form (nil otherwise).
 	MultiproofTxns func(v any) []MultiproofSet
 
@@ -182,8 +182,10 @@ func multiproof(e *Entry) { e.Multiproof = true }
 func notes(s string) func(*Entry) {
 	return func(e *Entry) { e.Notes = s }
 }
-func limit(n int) func(*Entry)         { return func(e *Entry) { e.Limit = n } }
-func covers(ts ...string) func(*Entry) { return func(e *Entry) { e.GoTypes = append(e.GoTypes, ts...) } }
+func limit(n int) func(*Entry) { return func(e *Entry) { e.Limit = n } }
+func covers(ts ...string) func(*Entry) {
+	return func(e *Entry) { e.GoTypes = append(e.GoTypes, ts...) }
+}
 func norm(fn func(v any)) func(*Entry) { return func(e *Entry) { e.Normalise = fn } }
 func mpsets(fn func(v any) []MultiproofSet) func(*Entry) {
 	return func(e *Entry) { e.MultiproofTxns = fn; e.Multiproof = true }
